@@ -15,7 +15,7 @@ META = {
 def run(chk, facts, tier):
     chk.rule('nesn-writers', 'next_expected_sequence_number_ is stored only in received() (toggle, control dependent on (header & sn_flag) == next_expected_sequence_number_), '
              'reset_pdu_buffer() (= false) and constructors; in particular not on the MIC-failure path acknowledge(read_buffer)', floor=2)
-    chk.rule('mic-path-no-delivery', 'acknowledge(read_buffer) neither pushes to the receive ring nor increments the receive packet counter', floor=1)
+    chk.rule('mic-path-no-delivery', 'acknowledge(read_buffer), and every buffer function it calls, neither pushes to the receive ring, increments the receive packet counter, stores NESN nor calls received()', floor=1)
     variants(facts, BUF + 'received', chk)
     variants(facts, BUF + 'acknowledge', chk)
     F = 'next_expected_sequence_number_'
@@ -38,8 +38,26 @@ def run(chk, facts, tier):
     for fn in facts.fns(BUF + 'acknowledge'):
         if not fn.params or 'read_buffer' not in fn.params[0]['t']:
             continue
-        bad = [c for c in fn.body.calls() if c.cn in ('push_front', 'increment_receive_packet_counter')]
-        chk.instance('mic-path-no-delivery', fn, 'acknowledge(read_buffer)', not bad, '' if not bad else 'MIC-failure path calls %s' % bad[0].cn, key='acknowledge(read_buffer)')
+        # everything reachable from the MIC-failure path inside the buffer class: none of it may deliver, count or toggle NESN
+        seen, work, bad = set(), [fn], []
+        while work:
+            g = work.pop()
+            if id(g) in seen:
+                continue
+            seen.add(id(g))
+            for c in g.body.calls():
+                if c.cn in ('push_front', 'increment_receive_packet_counter') or (c.cn == 'received'):
+                    bad.append((g, c))
+                elif c.cn and g is fn or c.cn in ('acknowledge', 'next_transmit'):
+                    for h in facts.fns(BUF + c.cn):
+                        if h.kind == fn.kind and len(h.params) == len(c.args()) and not (h.name == 'acknowledge' and h.params and 'read_buffer' in h.params[0]['t']):
+                            work.append(h)
+            for tgt, op, val, st in stores(g.body):
+                if target_name(tgt) == F:
+                    bad.append((g, st))
+        chk.instance('mic-path-no-delivery', fn, 'acknowledge(read_buffer) and the %d buffer functions it calls' % (len(seen) - 1), not bad,
+                     '' if not bad else 'the MIC-failure path reaches %s in %s(): a PDU whose integrity check failed is acknowledged/delivered/counted as if it had been received' % (bad[0][1].text()[:50], bad[0][0].name),
+                     node=bad[0][1] if bad else None, key='acknowledge(read_buffer)')
 
     # nRF52 radio ISR: which buffer function sees which receive outcome
     chk.rule('isr-dispatch', 'nRF52 radio ISR: received() only for valid CRC and valid MIC and a real receive buffer; acknowledge(buffer) only for valid CRC with invalid MIC; otherwise next_transmit() (nothing acknowledged)', floor=2)
